@@ -96,6 +96,9 @@ func TestC02(t *testing.T) {
 		}
 		r.Rapid(t, typeName(typ), n, func(t *rapid.T) {
 			m := genC01(t, typ)
+			if m.Type == model.CONNECT {
+				m.ProtocolName, m.ProtocolVersion = "MQTT", 5 // C02 keeps the default protocol name and version
+			}
 			if !m.WellFormedMQTT() {
 				t.Fatalf("generator produced a packet outside the C02 domain: %s", m.String())
 			}
